@@ -131,6 +131,9 @@ def run(F, ck, tier):
     # R09.11 / R09.12
     recombination_base(F, ck, 'R09.11', [('starky::verifier::verify_stark_proof_with_challenges', 'starky'), ('starky::recursive_verifier::verify_stark_proof_with_challenges_circuit', 'starky')])
     degree_bound(F, ck)
+    ck.rule('R09.13', 'in the STARK prover\'s quotient computation the next-row offset (in the quotient coset) times the step used to read committed oracles is exactly 1 << rate_bits (exponents added as polynomials)')
+    from . import stride
+    ck.floor('R09.13', 'next-row index sites in compute_quotient_polys', stride.check(F, ck, 'R09.13', 'compute_quotient_polys', 'starky'), 1)
     # R09.6 cap order (native and circuit)
     for fq in ('starky::verifier::verify_stark_proof_with_challenges', 'starky::recursive_verifier::verify_stark_proof_with_challenges_circuit'):
         fn = F.one(fq, crate='starky')
